@@ -116,7 +116,7 @@ fn echo_expect(i: &Inputs, ncomp: usize) -> Class {
 
 fn echo(m: &mut Monitor, cfg: &Config) {
     let col = Collections::load();
-    let ncases: u64 = cfg.tier.pick(256 * 6, 256 * 16);
+    let ncases: u64 = cfg.tier.pick(256 * 6, 256 * 48);
     let idx: Vec<u64> = (0..ncases).collect();
     par_cases(m, &idx, |m, _, &i| {
         let mut rng = Rng::derive(cfg.seed, "c03-echo", i);
@@ -376,7 +376,7 @@ fn tp_grid(m: &mut Monitor, cfg: &Config) {
 
 fn tp_random(m: &mut Monitor, cfg: &Config) {
     let col = Collections::load();
-    let n = cfg.tier.pick(12_000, 150_000);
+    let n = cfg.tier.pick(12_000, 600_000);
     let idx: Vec<u64> = (0..n).collect();
     par_cases(m, &idx, |m, _, &i| {
         let mut rng = Rng::derive(cfg.seed, "c03-tp", i / 20);
@@ -441,7 +441,7 @@ fn tp_random(m: &mut Monitor, cfg: &Config) {
 
 fn caloric_targets(m: &mut Monitor, cfg: &Config) {
     let col = Collections::load();
-    let n = cfg.tier.pick(2500, 30_000);
+    let n = cfg.tier.pick(2500, 150_000);
     let idx: Vec<u64> = (0..n).collect();
     par_cases(m, &idx, |m, _, &i| {
         let mut rng = Rng::derive(cfg.seed, "c03-cal", i / 10);
